@@ -1,7 +1,7 @@
 SPECIFICATION Spec
 CONSTANTS
   Workers = {1, 2}
-  Configs <- TwoN3
+  Configs <- QuickSet
   MirrorGoc = FALSE
   MirrorSetup = FALSE
   MirrorDone = FALSE
